@@ -695,7 +695,8 @@ func (streamSetSelf *StreamSetForInterfaceDef) IsSupersetByKey(input *StreamSetF
 // Minus TODO NOTE !!Duplicated!! Get all of this StreamSetForInterface but not in the given StreamSetForInterface
 func (streamSetSelf *StreamSetForInterfaceDef) Minus(input *StreamSetForInterfaceDef) *StreamSetForInterfaceDef {
 	if input == nil || input.Size() == 0 {
-		return NewStreamSetForInterface()
+		// Nothing to subtract (same as StreamSetDef.Minus / SetForInterfaceDef.Minus)
+		return streamSetSelf
 	}
 
 	return &StreamSetForInterfaceDef{SetForInterfaceDef: *streamSetSelf.SetForInterfaceDef.Minus(&input.SetForInterfaceDef)}
